@@ -173,6 +173,18 @@ def run_evalpath(case, ctx):
                 want = np.array([[[float(tab[i][f](*pt)) for i in range(nPe)] for f in range(tab.shape[1])] for pt in P])
                 worst = max(worst, relerr(got, want, scale=1.0))
     ctx.check("eval-path", worst, 1e-13, key + "/tables-at-gauss-points", matrixTypes=[str(m) for m in mts])
+    # the evaluation helper at the element's own nodes, given exactly as Get_Local_Coords() returns them (an integer array for the
+    # element types whose reference nodes have integer coordinates) and as floats: values and derivatives of every table
+    from EasyFEA.FEM._group_elem import _GroupElem  # noqa: PLC0415
+    worst = 0.0
+    with ctx.monitored("no-exception", key + "/at-nodes/raised"):
+        raw = g.Get_Local_Coords()
+        for pts in (raw, np.asarray(raw, float)):
+            for tab in (g._N(), g._dN(), g._ddN()):
+                got = np.asarray(_GroupElem._Eval_Functions(tab, np.asarray(pts)), float)
+                want = np.array([[[float(tab[i][f](*[float(c_) for c_ in pt])) for i in range(nPe)] for f in range(tab.shape[1])] for pt in np.asarray(pts)])
+                worst = max(worst, float(np.abs(got - want).max()))
+    ctx.check("eval-path", worst, 1e-13, key + "/tables-at-nodes", points_dtype=str(np.asarray(raw).dtype))
 
     # physical gradient on affine images of the reference element
     worst = 0.0
